@@ -503,9 +503,19 @@ pub fn range_ref_opt(rng: &mut Rng, cx: &FCtx, full: bool) -> String {
             let c0 = rng.range(1, WIN_COLS as i64) as i32;
             let r1 = (r0 + rng.range(0, 3) as i32).min(LAST_ROW);
             let c1 = (c0 + rng.range(0, 2) as i32).min(LAST_COL);
-            let a = rng.chance(0.2);
-            let d = if a { "$" } else { "" };
-            format!("{pre}{d}{}{d}{r0}:{d}{}{d}{r1}", col_name(c0), col_name(c1))
+            // all relative / all absolute / every `$` drawn on its own (running totals such as
+            // A$1:A6, mixed corners); now and then the corners are typed the other way round
+            let (dc0, dr0, dc1, dr1) = match rng.weighted(&[60, 20, 20]) {
+                0 => (false, false, false, false),
+                1 => (true, true, true, true),
+                _ => (rng.chance(0.5), rng.chance(0.5), rng.chance(0.5), rng.chance(0.5)),
+            };
+            let d = |b: bool| if b { "$" } else { "" };
+            if rng.chance(0.05) {
+                format!("{pre}{}{}{}{r1}:{}{}{}{r0}", d(dc1), col_name(c1), d(dr1), d(dc0), col_name(c0), d(dr0))
+            } else {
+                format!("{pre}{}{}{}{r0}:{}{}{}{r1}", d(dc0), col_name(c0), d(dr0), d(dc1), col_name(c1), d(dr1))
+            }
         }
         1 => {
             let c0 = rng.range(1, WIN_COLS as i64) as i32;
@@ -560,6 +570,11 @@ pub fn expr(rng: &mut Rng, cx: &FCtx, depth: u32) -> String {
             let op = *rng.pick(&["+", "-", "*", "/", "^", "&", "=", "<>", "<", ">", "<=", ">="]);
             let a = expr(rng, cx, depth - 1);
             let b = expr(rng, cx, depth - 1);
+            // towers and nested differences: the shapes in which parentheses carry meaning
+            if rng.chance(0.25) && matches!(op, "^" | "-" | "/") {
+                let c = expr(rng, cx, 0);
+                return format!("{a}{op}({b}{op}{c})");
+            }
             format!("{a}{op}{b}")
         }
         1 => format!("-{}", expr(rng, cx, depth - 1)),
